@@ -84,6 +84,42 @@ def run(chk: Check, drv: Driver):
                         for b in out[6]:
                             chk.violation("result not usable: " + b, pr.case(sizes, ins, capacity=cap))
                         chk.case((pr.key(), cap, "real", json.dumps(sorted((n, sorted(cv.items())) for n, (cv, _) in ins.items()))), sample=None)
+    # directed: results of order 3 whose mode ordering is a 3-cycle (not its own inverse), pairwise different dimension
+    # sizes, dense and compressed levels mixed — the results on which a confusion of level order and dimension order
+    # in anything that reads a result back (taco_indices/taco_vals, pickling, ==, to_format, feeding) shows
+    from ..gen import parse_fmt
+
+    for out_fmt in ("d1s2s0", "s2d0s1", "s1s2d0", "d2d0s1", "s1d2d0", "d1d2s0", "s2s0s1", "d2s0d1"):
+        order_digits = out_fmt[1::2]
+        same_s = "".join("s" + d_ for d_ in order_digits)
+        same_d = "".join("d" + d_ for d_ in order_digits)
+        for in_fmts in ((same_s, same_d), (same_d, same_d), ("sss", "d2d1d0")):
+            fs = {"o": out_fmt, "a": in_fmts[0], "b": in_fmts[1]}
+            pr = kruns.Prepared("o(i,j,k) = a(i,j,k) + b(i,j,k)", {n_: parse_fmt(f) for n_, f in fs.items()})
+            if pr.problem is None:
+                continue
+            dims = (4, 3, 2)
+            sizes = {"i": 4, "j": 3, "k": 2}
+            ins = {"a": (problems.random_input(rng, dims, 0.5), dims), "b": (problems.random_input(rng, dims, 0.5), dims)}
+            res = WORKER.run(pr.text, pr.fs, [ins], "llvm", feedback=True, timeout=240)
+            chk.count("directed_cyclic_result_runs")
+            if res[0] != "ok":
+                if res[0] == "exc" and res[1] in ("NoKernelFoundError", "NotImplementedError"):
+                    chk.count("directed_cyclic_no_kernel")
+                    continue
+                chk.violation(f"real kernel {res[0]}: {res[1:3]}", pr.case(sizes, ins))
+                continue
+            out = res[1][0]
+            if out[0] != "ok":
+                chk.violation(f"real kernel call raised {out[1]}: {out[2]}", pr.case(sizes, ins))
+                continue
+            raw = kernels.Raw(*out[1:6])
+            probs = kernels.wf_problems(raw)
+            if probs:
+                chk.violation("real result is not well-formed: " + "; ".join(probs), pr.case(sizes, ins), got=raw.levels)
+            for b in out[6]:
+                chk.violation("result not usable: " + b, pr.case(sizes, ins))
+            chk.case((pr.key(), "directed-cyclic"), sample=None)
     replies = drv.batch(wf_reqs)
     mism = 0
     for (case, py_ok), rep in zip(wf_meta, replies):
